@@ -183,16 +183,19 @@ theorem bare_key_is_identifier_witness :
     gained exactly the active `_api` object, its item and its file; or the state is exactly as before
     (no object, item or file left behind) and `true` is returned only for `ignore_on_error`.
     Full statement (no `hf`) fails in the model: the catch block at configobjectutility.cpp:287-295
-    removes the file but does not unregister the committed object. -/
+    removes the file but does not unregister the committed object.  `generated` = children generated by
+    apply rules (committed and rolled back together with the object). -/
 theorem create_all_or_nothing_partial (st : St) (k : Key) (path : Str) (parents : List Key) (fault : Fault) (api : Bool)
+    (generated : List Key)
     (hfresh : path ∉ st.files) (hitem : k ∉ st.items) (hf : fault ≠ .activateThrows) :
-    ((createObject st k path parents fault api).2 = .ok ∧ fault = .none ∧ st.has k = false ∧
-        (createObject st k path parents fault api).1.objs =
-          { key := k, api := api, active := true, file := path } :: st.objs ∧
-        (createObject st k path parents fault api).1.items = k :: st.items ∧
-        (createObject st k path parents fault api).1.files = path :: st.files)
-    ∨ ((createObject st k path parents fault api).1 = st ∧
-        ((createObject st k path parents fault api).2 = .ok → fault = .ignored)) := by
+    ((createObject st k path parents fault api generated).2 = .ok ∧ fault = .none ∧ st.has k = false ∧
+        (createObject st k path parents fault api generated).1.objs =
+          { key := k, api := api, active := true, file := path } ::
+            (generated.map (fun g => { key := g, api := false, active := true, file := [] }) ++ st.objs) ∧
+        (createObject st k path parents fault api generated).1.items = k :: (generated ++ st.items) ∧
+        (createObject st k path parents fault api generated).1.files = path :: st.files)
+    ∨ ((createObject st k path parents fault api generated).1 = st ∧
+        ((createObject st k path parents fault api generated).2 = .ok → fault = .ignored)) := by
   unfold createObject
   by_cases hk : st.has k = true
   · simp [hk]
@@ -202,20 +205,31 @@ theorem create_all_or_nothing_partial (st : St) (k : Key) (path : Str) (parents 
       simpa only [ne_eq, decide_not] using filter_ne_fresh k st.items hitem
     have h3 : rmFile path (path :: st.files) = st.files := by
       simp [rmFile]; simpa [rmFile] using h1
-    cases fault <;> simp [hk', h1, h2, h3] at hf ⊢
+    by_cases hg : genOk st k generated = true
+    · cases fault <;> simp [hk', hg, h1, h2, h3] at hf ⊢
+    · have hg' : genOk st k generated = false := by simpa using hg
+      cases fault <;> simp [hk', hg', h1, h2, h3] at hf ⊢
+
+/-- All-or-nothing covers the children apply rules generate: a create that fails for ANY reason (here:
+    a generated sibling is invalid, `commitFails`) leaves neither the object nor any generated child. -/
+example : createObject ⟨[], [], [], [], []⟩ ⟨['H'], ['h']⟩ ['f'] [] .commitFails true [⟨['S'], ['h','!','a']⟩] =
+    (⟨[], [], [], [], []⟩, .fail) := by decide
+
+example : (createObject ⟨[], [], [], [], []⟩ ⟨['H'], ['h']⟩ ['f'] [] .none true [⟨['S'], ['h','!','a']⟩]).1.keys =
+    [⟨['H'], ['h']⟩, ⟨['S'], ['h','!','a']⟩] := by decide
 
 /-- Regression for F-C17e (fixed by 86ebd6a): a name mismatch after commit fails and leaves nothing. -/
-example : createObject ⟨[], [], [], []⟩ ⟨['N'], ['s','h','!','!','b']⟩ ['f'] [] .nameMismatch = (⟨[], [], [], []⟩, .fail) := by
+example : createObject ⟨[], [], [], [], []⟩ ⟨['N'], ['s','h','!','!','b']⟩ ['f'] [] .nameMismatch = (⟨[], [], [], [], []⟩, .fail) := by
   decide
 
-example : (createObject ⟨[], [], [], []⟩ ⟨['H'], ['h']⟩ ['f'] [] .none).2 = .ok ∧
-    (createObject ⟨[], [], [], []⟩ ⟨['H'], ['h']⟩ ['f'] [] .commitFails) = (⟨[], [], [], []⟩, .fail) := by decide
+example : (createObject ⟨[], [], [], [], []⟩ ⟨['H'], ['h']⟩ ['f'] [] .none).2 = .ok ∧
+    (createObject ⟨[], [], [], [], []⟩ ⟨['H'], ['h']⟩ ['f'] [] .commitFails) = (⟨[], [], [], [], []⟩, .fail) := by decide
 
 /-- The excluded case: an exception from `ActivateItems` leaves a registered, inactive object and its
     item behind while the file is removed and `false` is returned. -/
 theorem activate_exception_counterexample :
-    createObject ⟨[], [], [], []⟩ ⟨['H'], ['h']⟩ ['f'] [] .activateThrows =
-      (⟨[⟨⟨['H'], ['h']⟩, true, false, ['f']⟩], [⟨['H'], ['h']⟩], [], []⟩, .fail) := by decide
+    createObject ⟨[], [], [], [], []⟩ ⟨['H'], ['h']⟩ ['f'] [] .activateThrows =
+      (⟨[⟨⟨['H'], ['h']⟩, true, false, ['f']⟩], [⟨['H'], ['h']⟩], [], [], []⟩, .fail) := by decide
 
 /-- A successful delete removes the object, its item and (for an `_api` object) its file. -/
 theorem delete_removes_object_and_file (st : St) (k : Key) (cascade : Bool) (o : Obj)
@@ -229,15 +243,35 @@ theorem delete_removes_object_and_file (st : St) (k : Key) (cascade : Bool) (o :
   rw [ho] at hok ⊢
   by_cases hapi : o.api = true
   · simp only [hapi, Bool.not_true, Bool.false_eq_true, if_false] at hok ⊢
-    cases hf : st.objs.length with
-    | zero => simp [deleteHelper, removeObj, St.keys, rmFile, hapi, hkey]
-    | succ f =>
-      rw [hf] at hok
-      simp only [deleteHelper] at hok ⊢
-      split
-      · rename_i hc; simp [hc] at hok
-      · simp [removeObj, St.keys, rmFile, hapi, hkey]
+    by_cases hcy : (cascade && cascadeCycle st k) = true
+    · simp [hcy] at hok
+    · simp only [hcy, Bool.false_eq_true, ↓reduceIte] at hok ⊢
+      cases hf : st.objs.length with
+      | zero => simp [deleteHelper, removeObj, St.keys, rmFile, hapi, hkey]
+      | succ f =>
+        rw [hf] at hok
+        simp only [deleteHelper] at hok ⊢
+        split
+        · rename_i hc; simp [hc] at hok
+        · simp [removeObj, St.keys, rmFile, hapi, hkey]
   · simp [hapi] at hok
+
+/-- F-C17f: a deleted Service is still resolved through its host (no caller of `Host::RemoveService`), so
+    objects can still be created for it.  (With the repair `removeObj` would erase the entry and
+    `resolvesService` would be false after every successful delete.) -/
+theorem deleted_service_still_resolvable_counterexample :
+    let k : Key := ⟨tyService, ['h', '!', 's']⟩
+    let st1 := (createObject ⟨[], [], [], [], []⟩ k ['f'] [] .none).1
+    (deleteObject st1 k false).2 = .ok ∧ (deleteObject st1 k false).1.has k = false ∧
+      (deleteObject st1 k false).1.resolvesService k = true := by decide
+
+/-- F-C17g: a cascading delete that meets a dependency cycle (here: an object that depends on itself,
+    e.g. a TimePeriod whose `includes` names itself — such an object CAN be created) does not return:
+    `DeleteObjectHelper` visits the dependents before it deactivates the object. -/
+theorem cyclic_cascade_delete_counterexample :
+    let k : Key := ⟨['T'], ['t', 'p']⟩
+    let st1 := (createObject ⟨[], [], [], [], []⟩ k ['f'] [k] .none).1
+    st1.has k = true ∧ deleteObject st1 k true = (st1, .threw) ∧ (deleteObject st1 k false).2 = .fail := by decide
 
 /-- Objects not created through the API are refused and nothing changes. -/
 theorem refuse_non_api (st : St) (k : Key) (cascade : Bool) (o : Obj)
@@ -271,8 +305,8 @@ theorem cascade_only_when_asked (st : St) (k : Key) (o : Obj) (ho : st.find k = 
     · left; simp [hapi]
 
 example : deleteObject ⟨[⟨⟨['H'], ['h']⟩, true, true, ['f']⟩, ⟨⟨['S'], ['s']⟩, true, true, ['g']⟩],
-      [], [['f'], ['g']], [(⟨['S'], ['s']⟩, ⟨['H'], ['h']⟩)]⟩ ⟨['H'], ['h']⟩ true =
-    (⟨[], [], [], []⟩, .ok) := by decide
+      [], [['f'], ['g']], [(⟨['S'], ['s']⟩, ⟨['H'], ['h']⟩)], []⟩ ⟨['H'], ['h']⟩ true =
+    (⟨[], [], [], [], []⟩, .ok) := by decide
 
 /-- Never two objects of one type with the same name: invariant of every create/delete sequence,
     whatever faults occur. -/
@@ -281,6 +315,6 @@ theorem unique_names (st : St) (h : st.keys.Nodup) (ops : List Op) : (run st ops
   | nil => exact h
   | cons op ops ih => exact ih (step st op) (step_nodup st op h)
 
-example : (St.keys ⟨[], [], [], []⟩).Nodup := by decide
+example : (St.keys ⟨[], [], [], [], []⟩).Nodup := by decide
 
 end Icinga.C17
